@@ -69,12 +69,7 @@ def _history_run(pid, tier, seed, kinds, count_q, count_t, max_len_q, max_len_t,
     rng = random.Random(seed)
     count = _sizes(tier, count_q, count_t)
     cases = gen_cases(rng, count, 2, _sizes(tier, nmax_q, nmax_t), kinds, _sizes(tier, max_len_q, max_len_t), cfgs)
-    corpus = os.path.join(VERIF, "corpus", pid + ".jsonl")
-    pre = []
-    if os.path.exists(corpus):
-        pre = [json.loads(l) for l in open(corpus) if l.strip()]
-        for c in pre:
-            c["history"] = [tuple(o) for o in c["history"]]
+    pre = load_corpus(pid)
     cases = pmap(P._fix_worker, pre + cases)
     ws = pmap(P._case_worker, cases)
     viol = harness_errors(ws, pid)
